@@ -85,25 +85,28 @@ Theorem C18_conc : forall (c0 : core) (progs : list (list cop)) (sched : list na
   crun (cinit c0 progs) sched = (st, tr) -> all_returned cop core st = true ->
   (exists added, Permutation added (flat_map cop_fields (concat progs))
                  /\ cfields (snd (m_cell st)) = cfields c0 ++ added)
-  /\ Permutation tr (concat progs)
-  /\ clevel (snd (m_cell st)) = lin_level tr (clevel c0)
+  /\ Permutation (untag cop tr) (concat progs)
+  /\ clevel (snd (m_cell st)) = lin_level (untag cop tr) (clevel c0)
   /\ forall l, emit (snd (m_cell st)) l
-               = semit (cfields c0 ++ flat_map cop_fields tr, lin_level tr (clevel c0)) l.
+               = semit (cfields c0 ++ flat_map cop_fields (untag cop tr),
+                        lin_level (untag cop tr) (clevel c0)) l.
 Proof. exact conc_nothing_lost. Qed.
 
 (* linearisability proper: the final logger is the sequential specification applied to all
-   operations in linearisation order *)
+   operations in linearisation order, and that order keeps every goroutine's own order *)
 Theorem C18_conc_linearisable : forall c0 progs sched st tr,
   crun (cinit c0 progs) sched = (st, tr) -> all_returned cop core st = true ->
-  Permutation tr (concat progs) /\ abs (snd (m_cell st)) = fold_left sapply tr (abs c0).
+  Permutation (untag cop tr) (concat progs)
+  /\ (forall t, ops_of cop t tr = nth t progs [])
+  /\ abs (snd (m_cell st)) = fold_left sapply (untag cop tr) (abs c0).
 Proof. exact conc_linearisable. Qed.
 
 (* and at every intermediate moment of every schedule the logger is the specification applied
    to the operations linearised so far, each of them requested and none twice *)
 Theorem C18_conc_prefix : forall c0 progs sched st tr,
   crun (cinit c0 progs) sched = (st, tr) ->
-  abs (snd (m_cell st)) = fold_left sapply tr (abs c0)
-  /\ exists rest, Permutation (tr ++ rest) (concat progs).
+  abs (snd (m_cell st)) = fold_left sapply (untag cop tr) (abs c0)
+  /\ exists rest, Permutation (untag cop tr ++ rest) (concat progs).
 Proof. exact conc_prefix. Qed.
 
 (* non-vacuity: three goroutines, a schedule with failing CompareAndSwaps, all return *)
@@ -111,7 +114,8 @@ Example C18_example_conc :
   let r := crun (cinit (Wrap (Base 0 [9%N]) 1) [[CWith [1%N]; CSetLevel (-1)]; [CWith [2%N]]; [CWith []; CWith [3%N]]])
                 [0; 1; 2; 1; 0; 2; 0; 0; 2; 2; 0; 0; 2; 2]%nat in
   all_returned cop core (fst r) = true
-  /\ snd r = [CWith [2%N]; CWith [1%N]; CWith []; CSetLevel (-1); CWith [3%N]]
+  /\ snd r = [(1%nat, CWith [2%N]); (0%nat, CWith [1%N]); (2%nat, CWith []); (0%nat, CSetLevel (-1));
+              (2%nat, CWith [3%N])]
   /\ abs (snd (m_cell (fst r))) = ([9%N; 2%N; 1%N; 3%N], -1).
 Proof. vm_compute. repeat split. Qed.
 
@@ -132,7 +136,7 @@ Qed.
 Theorem C18_conc_orig_level_refuted : exists c0 progs sched,
   let r := crun_orig (cinit c0 progs) sched in
   all_returned cop core (fst r) = true
-  /\ clevel (snd (m_cell (fst r))) <> lin_level (snd r) (clevel c0).
+  /\ clevel (snd (m_cell (fst r))) <> lin_level (untag cop (snd r)) (clevel c0).
 Proof.
   exists (Base 0 []), conc_witness2_progs, conc_witness2_sched.
   destruct conc_orig_witness2 as (Hret & Hl & Htr). split; [exact Hret|].
